@@ -86,7 +86,7 @@ def run(cx):
         if not ok:
             inst.violation(nf.path, "initial nofeedback timer", "the initial no-feedback timer is not now + 2000 ms")
 
-    with cx.instance("C14.c", "T2/T7 floor", "every write of the allowed rate outside the constructor is floored (or is the ceiling clamp); halvings are max(X/2, floor)", floor=8) as inst:
+    with cx.instance("C14.c", "T2/T7 floor", "every write of the allowed rate outside the constructor is floored (or is the ceiling clamp); halvings are max(X/2, floor)", floor=6) as inst:
         MR = r"half_connection::send_rate::MINIMUM_RATE"
         INIT = r"send_rate::compute_initial_send_rate\(SendRateComp::update_rtt\(arg1,send_rate::ms_to_s\(arg3\.rtt_ms\)\)\.0\)"
         TCP = r"arg1\.mode@ThroughputEqn\.0\.send_rate_tcp"
@@ -124,7 +124,7 @@ def run(cx):
                     inst.violation(b.path, "send_rate write without floor", "allowed rate is set to `%s`, which is none of the RFC 5348 update forms (receive-rate limit as a cap, s/64 or W_init/R as a floor)" % e[:160], at=b.span_at(l))
                 if "div(arg1.send_rate,2)" in e and not re.fullmatch(r"Ord::max\(div\(arg1\.send_rate,2\),half_connection::send_rate::MINIMUM_RATE\)", e):
                     inst.violation(b.path, "halving", "a halving of the rate is not max(X/2, s/64): `%s`" % e[:120], at=b.span_at(l))
-        if n < 8:
+        if n < 5:
             inst.violation("half_connection::send_rate::SendRateComp", "send_rate writes", "fewer send_rate writes than counted by hand (anchor)")
         # recv_limit = 2*max(X_recv_set) unless the loss rate increased (RFC 5348 4.3 step 4)
         hf = R.body("SendRateComp::handle_feedback")
